@@ -132,6 +132,29 @@ FsDirSync(f) == [f EXCEPT !.dlog = <<>>]
 FsQuiesce(f) == [f EXCEPT !.ino = [i \in DOMAIN @ |-> Inode(Vol(@[i]))], !.dlog = <<>>]
 
 (***************************************************************************)
+(* Events: the vocabulary shared by the recorded system calls (T_CrashFS)  *)
+(* and the protocol models (CrashSave).  Records carry the fields their op *)
+(* needs: open{name,creat,trunc} write{name,off,len,src} trunc{name,len}   *)
+(* fsync{name} rename{from,to} unlink{name} mkdir{name} rmdir{name} dirsync*)
+(***************************************************************************)
+Applicable(f, e) ==
+  CASE e.op \in {"write", "trunc", "fsync", "unlink"} -> Exists(f, e.name)
+    [] e.op = "rename" -> Exists(f, e.from)
+    [] e.op \in {"open", "mkdir", "rmdir", "dirsync"} -> TRUE
+    [] OTHER -> FALSE
+
+ApplyEv(f, e) ==
+  CASE e.op = "open"    -> FsOpen(f, e.name, e.creat, e.trunc)
+    [] e.op = "write"   -> FsWrite(f, e.name, e.off, e.len, e.src)
+    [] e.op = "trunc"   -> FsTrunc(f, e.name, e.len)
+    [] e.op = "fsync"   -> FsSync(f, e.name)
+    [] e.op = "rename"  -> FsRename(f, e.from, e.to)
+    [] e.op = "unlink"  -> FsUnlink(f, e.name)
+    [] e.op = "mkdir"   -> FsMkdir(f, e.name)
+    [] e.op = "rmdir"   -> FsRmdir(f, e.name)
+    [] e.op = "dirsync" -> FsDirSync(f)
+
+(***************************************************************************)
 (* Crash outcomes                                                          *)
 (***************************************************************************)
 O(cls, j, m) == [cls |-> cls, j |-> j, m |-> m]
